@@ -179,7 +179,7 @@ func init() {
 							if !isR {
 								continue
 							}
-							if e := ret.Results[1]; !isNilConst(e) {
+							if e := retValue(ret, 1); !isNilConst(e) {
 								// a failing return (the caller checks the error), if the error is known to be one
 								nonNil := false
 								switch e.(type) {
@@ -198,7 +198,7 @@ func init() {
 									continue
 								}
 							}
-							k, good := classified(ret.Results[0], b)
+							k, good := classified(retValue(ret, 0), b)
 							if !good {
 								ok = false
 								notes = append(notes, FuncKey(g)+": "+k)
@@ -264,7 +264,7 @@ func lookupNamesRule(P *Program, R *Report) {
 		if !ok {
 			return
 		}
-		if g, isG := st.Addr.(*ssa.Global); isG && g.Name() == "secretNames" {
+		if g, isG := st.Addr.(*ssa.Global); isG && globalName(g) == "secretNames" {
 			if seq, ok := seqOf(st.Val); ok {
 				for _, e := range seq {
 					names[strings.Trim(e.D, `"`)] = true
